@@ -136,7 +136,7 @@ func (u *Unmarshaler) fillSlice(fieldType reflect.Type, value reflect.Value,
 
 	refValue := reflect.ValueOf(mapValue)
 	if refValue.Kind() != reflect.Slice {
-		return newTypeMismatchErrorWithHint(fullName, reflect.Slice.String(), refValue.Type().String())
+		return newTypeMismatchErrorWithHint(fullName, reflect.Slice.String(), fmt.Sprintf("%T", mapValue))
 	}
 	if refValue.IsNil() {
 		return nil
@@ -389,7 +389,7 @@ func (u *Unmarshaler) generateMap(keyType, elemType reflect.Type, mapValue any,
 					return emptyValue, errTypeMismatch
 				}
 
-				targetValue.SetMapIndex(key, reflect.ValueOf(v))
+				SetMapIndexValue(elemType, targetValue, key, reflect.ValueOf(v))
 			case string:
 				if dereffedElemKind != reflect.String {
 					return emptyValue, errTypeMismatch
@@ -400,14 +400,14 @@ func (u *Unmarshaler) generateMap(keyType, elemType reflect.Type, mapValue any,
 					return emptyValue, errTypeMismatch
 				}
 
-				targetValue.SetMapIndex(key, val)
+				SetMapIndexValue(elemType, targetValue, key, val)
 			case json.Number:
 				target := reflect.New(dereffedElemType)
 				if err := setValueFromString(dereffedElemKind, target.Elem(), v.String()); err != nil {
 					return emptyValue, err
 				}
 
-				targetValue.SetMapIndex(key, target.Elem())
+				SetMapIndexValue(elemType, targetValue, key, target.Elem())
 			default:
 				if dereffedElemKind != keythValue.Kind() {
 					return emptyValue, errTypeMismatch
@@ -454,7 +454,7 @@ func (u *Unmarshaler) parseOptionsWithContext(field reflect.StructField, m Value
 					EnvVar:     options.EnvVar,
 					Range:      options.Range,
 				},
-				OptionalDep: u.opts.canonicalKey(options.OptionalDep),
+				OptionalDep: canonicalDep(options.OptionalDep, u.opts.canonicalKey),
 			}
 		}
 	}
@@ -820,7 +820,7 @@ func (u *Unmarshaler) processNamedField(field reflect.StructField, value reflect
 		return u.processNamedFieldWithoutValue(field.Type, value, opts, fullName)
 	}
 
-	if u.opts.fromArray {
+	if u.opts.fromArray && mapValue != nil {
 		fieldKind := field.Type.Kind()
 		if fieldKind != reflect.Slice && fieldKind != reflect.Array {
 			valueKind := reflect.TypeOf(mapValue).Kind()
@@ -1057,6 +1057,15 @@ func WithOpaqueKeys() UnmarshalOption {
 	return func(opt *unmarshalOptions) {
 		opt.opaqueKeys = true
 	}
+}
+
+// canonicalDep canonicalizes the key of an optional=dep / optional=!dep option, keeping the leading not symbol.
+func canonicalDep(dep string, canonicalKey func(string) string) string {
+	if len(dep) > 0 && dep[0] == notSymbol {
+		return string(notSymbol) + canonicalKey(dep[1:])
+	}
+
+	return canonicalKey(dep)
 }
 
 func createValuer(v valuerWithParent, opts *fieldOptionsWithContext) valuerWithParent {
